@@ -128,6 +128,7 @@ def catalogue():
 
 def gen_cases(tier, verif_seed):
     n_groups = {'quick': 900, 'thorough': 40000}[tier]
+    opcode_share = {'quick': .25, 'thorough': .5}[tier]
     cat = sorted(catalogue())
     for g in range(n_groups):
         gseed = derive(ID, verif_seed, 'g', g) & 0xffffffffffff
@@ -162,7 +163,10 @@ def gen_cases(tier, verif_seed):
                 'callers': callers, 'aseeds': aseeds,
                 'plan': {'pct_n': d, 'region': region,
                          'p': round(sr.uniform(.15, .7), 3),
-                         'sseed': sr.getrandbits(48)},
+                         'sseed': sr.getrandbits(48),
+                         # bytecode-granular pre-emption inside the region
+                         'opcodes': region is not None and
+                         sr.random() < opcode_share},
                 'gc': sr.random() < .1,
                 'catalogue': [list(c) for c in cat],
             }
@@ -268,7 +272,10 @@ def _concurrent(case, schedule=None):
 
     plan = case['plan']
     if schedule is not None:
-        p = {'replay': schedule['replay'], 'forced': schedule['forced']}
+        p = {'replay': schedule['replay'], 'forced': schedule['forced'],
+             'opcodes': schedule.get('opcodes', False),
+             'region': set([tuple(schedule['region'])])
+             if schedule.get('region') else set()}
     else:
         rng = Streams(plan['sseed'])['schedule']
         est = 2500 * sum(len(r) for r in reqs)
@@ -280,7 +287,7 @@ def _concurrent(case, schedule=None):
             region = _resolve_region(case, region[1])
         p = {'rng': rng, 'pct': pct,
              'region': set([tuple(region)]) if region else set(),
-             'p': plan['p']}
+             'p': plan['p'], 'opcodes': bool(plan.get('opcodes'))}
     s = sched.Scheduler(len(reqs), p)
     clock = SimClock()
     old_time = spyne.context.time
@@ -360,12 +367,15 @@ def run_case(case):
     res = {
         'violations': V,
         'fired': {'thread_switch': len(s.decisions),
+                  'opcode_granular_run': 1 if s.opcodes and s.instr_steps
+                  else 0,
                   'forced_decision': len(s.forced_log),
                   'gc_path': 1 if case.get('gc') else 0},
         'probes': {
             'switch_in_region': len([1 for d in s.decisions if s.region and
                    d[3] == '%s:%s' % sorted(s.region)[0]]),
             'steps_in_region': s.in_region_steps,
+            'instruction_steps_in_region': s.instr_steps,
             'wsdl_requests': n_wsdl,
             'lock_contended': sum(1 for _ in ()),
             'runs_with_racing_wsdl': 1 if n_wsdl >= 2 and any(
@@ -385,7 +395,10 @@ def run_case(case):
         'summary': {'steps': s.step, 'switches': len(s.decisions),
                     'sites': sorted(set(switch_sites))[:8]},
         'schedule': {'replay': [d[:3] for d in s.decisions],
-                     'forced': list(s.forced_log)},
+                     'forced': list(s.forced_log),
+                     'opcodes': s.opcodes,
+                     'region': list(sorted(s.region)[0]) if s.region
+                     else None},
         'region_switches': dict(s.region_hits),
         'region': sorted(s.region)[0] if s.region else None,
     }
@@ -465,11 +478,13 @@ def minimize(case, sig):
 
     def test(sw):
         c = dict(cur)
-        c['schedule'] = {'replay': sw, 'forced': cur['schedule']['forced']}
+        c['schedule'] = dict(cur['schedule'])
+        c['schedule']['replay'] = sw
         return still(c)
 
     sw = ddmin(cur['schedule']['replay'], test)
-    cur['schedule'] = {'replay': sw, 'forced': cur['schedule']['forced']}
+    cur['schedule'] = dict(cur['schedule'])
+    cur['schedule']['replay'] = sw
     # drop trailing requests of each caller
     changed = True
     while changed:
